@@ -46,6 +46,10 @@ pub struct Ctx {
     pub flags: Vec<String>,
 }
 impl Ctx {
+    /// interpreter / valgrind slices (tiny budgets): exhaustive sub-sweeps are sampled instead
+    pub fn light(&self) -> bool {
+        self.scale < 0.05
+    }
     pub fn rng(&self, tag: &str) -> Rng {
         Rng::new(self.seed, tag, self.shard)
     }
